@@ -49,6 +49,10 @@ fn shapes() -> Vec<Shape> {
         // an account first seen as a plain account and later (after a merge) as a signer
         Shape { parallel: 1, mergeable: true, pg_mergeable: true, n_ix: 1, payer: 0, extra_signer: false, mention_extra: true, data_len: 8 },
         Shape { parallel: 1, mergeable: true, pg_mergeable: true, n_ix: 1, payer: 0, extra_signer: true, mention_extra: false, data_len: 700 },
+        // instruction data exactly at, just below and just above the one-byte limit of the compact-u16 length prefix
+        Shape { parallel: 1, mergeable: true, pg_mergeable: true, n_ix: 1, payer: 0, extra_signer: false, mention_extra: false, data_len: 127 },
+        Shape { parallel: 1, mergeable: true, pg_mergeable: true, n_ix: 1, payer: 0, extra_signer: false, mention_extra: false, data_len: 128 },
+        Shape { parallel: 1, mergeable: true, pg_mergeable: true, n_ix: 2, payer: 1, extra_signer: false, mention_extra: false, data_len: 129 },
     ]
 }
 
@@ -207,7 +211,7 @@ fn check_seq(c: &Ctx, shapes: &[Shape], seq: &[usize], max_ix: usize, max_size: 
 
 pub fn run(cli: &Cli) -> Report {
     let mut rep = Report::new(cli, "exploration");
-    rep.rule("E1: every sequence of up to 3 (thorough: 4) parallel groups drawn from 9 shapes (1-3 atomic groups, mergeable or not at both levels, 1-3 labelled instructions, two payers, extra signer, small/large data) x instruction limit {1,2,3,14} x size limit {400,1232} x payer-change flag x lookup table present/absent; after add+optimize the flattened labels, group membership, merge permissions, payer rule, both limits and estimate >= bincode size of the built transaction are checked; non-trivial = the sequence was accepted by add");
+    rep.rule("E1: every sequence of up to 3 (thorough: 4) parallel groups drawn from 14 shapes (1-3 atomic groups, mergeable or not at both levels, 1-3 labelled instructions, two payers, extra signer, plain-then-signer mentions, small/large data and data of 127, 128 and 129 bytes around the compact-u16 prefix limit) x instruction limit {1,2,3,14} x size limit {400,1232} x payer-change flag x lookup table present/absent; after add+optimize the flattened labels, group membership, merge permissions, payer rule, both limits and estimate >= bincode size of the built transaction are checked; non-trivial = the sequence was accepted by add");
     rep.assume("instructions name their payer as a signer, as the SDK builders do");
     let c = ctx();
     let sh = shapes();
